@@ -95,6 +95,7 @@ def units(tier, seed):
         u.append({"kind": "keys", "src": f})
     u.append({"kind": "task_spelling"})
     u.append({"kind": "task_lists"})
+    u.append({"kind": "config_policy"})
     u.append({"kind": "frame_distinct"})
     return u
 
@@ -143,6 +144,13 @@ def run_unit(unit, acc):
     elif unit["kind"] == "task_spelling":
         for m in EvaluationTask:
             check_case({"kind": "task_spelling", "task": m.name}, acc)
+    elif unit["kind"] == "config_policy":
+        for m in ENUMS["MatchingLabelPolicy"]:
+            for spell in (m.value, m.value.lower(), m.name):
+                for flag in ("absent", True, False):
+                    check_case({"kind": "config_policy", "member": m.name, "arg": spell, "flag": flag}, acc)
+        for flag in (True, False, "absent"):
+            check_case({"kind": "config_policy", "member": None, "arg": None, "flag": flag}, acc)
     elif unit["kind"] == "task_lists":
         names = [m.name for m in EvaluationTask]
         for a in names:
@@ -277,6 +285,30 @@ def check_case(case, acc):
         if not ok:
             acc.violation("parse:EvaluationTask.set_task_lists:order", "set_task_lists(%s) returned %r: every entry must name its member, in input order" % ([m.value for m in members], got[1]), case)
         acc.state(("task_lists", len(members), ok), nontrivial=len(set(case["tasks"])) > 1)
+    elif k == "config_policy":
+        # the policy string of an evaluation configuration names the member, whatever the older boolean flag says; without a string the
+        # flag alone decides between ALLOW_UNKNOWN and DEFAULT
+        from perception_eval.config import PerceptionEvaluationConfig
+        from mc.engine import scratch as _scr
+        cfg = {"evaluation_task": "detection", "target_labels": ["car"], "label_prefix": "autoware", "max_x_position": 10.0, "max_y_position": 10.0,
+               "min_point_numbers": [0], "center_distance_thresholds": [1.0], "plane_distance_thresholds": [1.0], "iou_2d_thresholds": [0.5], "iou_3d_thresholds": [0.5]}
+        if case["arg"] is not None:
+            cfg["matching_label_policy"] = case["arg"]
+        if case["flag"] != "absent":
+            cfg["allow_matching_unknown"] = case["flag"]
+        want = case["member"] if case["member"] is not None else ("ALLOW_UNKNOWN" if case["flag"] is True else "DEFAULT")
+        acc.exec()
+        try:
+            ec = PerceptionEvaluationConfig(["/nonexistent"], "base_link", _scr.new_dir("c20cfg"), cfg)
+            got = ec.label_params["matching_label_policy"]
+            got = got.name if hasattr(got, "name") else repr(got)
+        except Exception as ex:  # noqa
+            got = "EXC:" + type(ex).__name__
+        acc.compared()
+        acc.state(("config_policy", case["member"], case["arg"], str(case["flag"]), got == want), nontrivial=case["flag"] is False and case["member"] not in (None, "DEFAULT"))
+        if got != want:
+            acc.violation("parse:config:matching_label_policy", "configuration with matching_label_policy=%r and allow_matching_unknown=%s yields %s, expected %s" % (
+                case["arg"], case["flag"], got, want), case)
     elif k == "key_nonmember":
         s_ = case["arg"]
         outs = {}
